@@ -77,6 +77,23 @@ theorem eraseAt_insertAt : ∀ (l : List γ) (k : Nat) (x : γ), k ≤ l.length 
   | y :: ys, k + 1, x, h => by
     simp [insertAt, eraseAt, eraseAt_insertAt ys k x (by simpa using h)]
 
+theorem insertAt_eraseAt : ∀ (L : List γ) (k : Nat) (x : γ), k < L.length → insertAt (eraseAt L k) k x = setAt L k x
+  | [], _, _, h => by simp at h
+  | _ :: xs, 0, _, _ => by cases xs <;> simp [eraseAt, insertAt, setAt]
+  | y :: xs, k + 1, x, h => by
+    simp [eraseAt, insertAt, setAt, insertAt_eraseAt xs k x (by simpa using h)]
+
+theorem not_mem_eraseAt_idxOf [DecidableEq γ] : ∀ {l : List γ} {x : γ}, l.Nodup → x ∉ eraseAt l (l.idxOf x)
+  | [], _, _ => by simp [eraseAt]
+  | y :: ys, x, h => by
+    by_cases hyx : y = x
+    · subst hyx
+      simp only [List.idxOf_cons_self, eraseAt]
+      exact (List.nodup_cons.1 h).1
+    · rw [List.idxOf_cons_ne _ hyx]
+      simp only [eraseAt, List.mem_cons, not_or]
+      exact ⟨fun e => hyx e.symm, not_mem_eraseAt_idxOf (List.nodup_cons.1 h).2⟩
+
 /-- multi-index bounds through insertAt / eraseAt -/
 theorem InB_insertAt : ∀ {idx s : List Nat} {k i : Nat}, k < s.length → InB idx (eraseAt s k) → i < s.getD k 0 →
     InB (insertAt idx k i) s
